@@ -1,5 +1,7 @@
 import PC.Drv.LogBuf
 import PC.Drv.Pure
+import PC.Drv.RevDeps
+import PC.Drv.Sup
 /-! `pcdriver <component>`: reads protocol lines on stdin, prints `model ||| verdict` per line. -/
 open PC.Drv
 
@@ -11,4 +13,6 @@ def main (args : List String) : IO UInt32 := do
   | ["restart"] => loop PC.Drv.Pure.restartStep stdin stdout (); return 0
   | ["probe"] => loop PC.Drv.Pure.probeStep stdin stdout (); return 0
   | ["atoi"] => loop PC.Drv.Pure.atoiStep stdin stdout (); return 0
+  | ["revdeps"] => loop PC.Drv.RevDeps.step stdin stdout (); return 0
+  | ["sup"] => loop PC.Drv.Sup.step stdin stdout {}; return 0
   | _ => IO.eprintln "usage: pcdriver <component>"; return 2
